@@ -3,6 +3,7 @@ import Nstd.Life.LemmasOps
 import Nstd.Life.LemmasBlk
 import Nstd.Life.LemmasAssign
 import Nstd.Life.LemmasStableSharp
+import Nstd.Life.LemmasClient
 /-
   Property theorems for C05: elements of List, Map, MultiMap, HashMap, HashSet, PoolList and PoolMap
   never move while they live; swap hands the elements over without relocating them; the pool
@@ -189,5 +190,60 @@ example : (exec (run (init per4) stableOps) (.put ⟨.L, 0⟩ (some 1) none (som
     (exec (run (init per4) stableOps) (.remove ⟨.M, 0⟩ 0)).isSome = true ∧
     (exec (run (init per4) stableOps) (.swap ⟨.P, 0⟩ ⟨.P, 1⟩)).isSome = true ∧
     ((run (init per4) stableOps).nodes ⟨.Q, 0⟩).items.length = 1 := by decide +kernel
+
+-- C05 for the clients (Server pools, Future worker contexts, Callback slots): a pointer stays valid until exactly the removal ----
+
+/-- C05 `pointer_valid_until_removed` (client-facing corollary, the statement the clients of the guarantee rely on: `Server` keeps
+    `PoolList` elements of clients / timers / listeners by address, `Future`'s thread pool its worker contexts, `Callback` its slots).
+    Take ANY reachable state (after any history `ops0`) and any element `it` of any node or pool container `c` in it - e.g. the
+    element whose address `PoolList::append`, `PoolMap::insert`, `List::append`, `HashMap::insert`, `Map::insert` has just returned
+    (`insert_links_one_item`).  Then for EVERY further history `ops` - insertions and removals of other elements anywhere, rebalancing,
+    bucket-chain surgery, copies, assignments, clear / destruction of OTHER containers, self-referential arguments, re-entrant removals,
+    swaps - exactly one of two things holds, decided by `HistRemoves` (some operation of `ops`, evaluated in the state it runs in and
+    following the element through swaps, is a remove / clear / destructor / re-construction designating this very element):
+    * the history does not remove the element: it is `Kept` - still an item, in the SAME slot, of a container `c'` of its kind (c itself,
+      or the other variable when an odd number of swaps handed it over), no object was constructed or destroyed in its slot during
+      the whole history, its key is unchanged - and its value object is unchanged too unless the events contain an assignment TO THAT
+      VERY OBJECT (which by `assign_only_value` / `overwrite_same_key` is the explicit overwrite `*it = v` or the insert-or-assign
+      of the element's own key into Map / HashMap);
+    * the history removes the element, and every member object of it was destroyed (the pointer dies exactly then, not before). -/
+theorem pointer_valid_until_removed (p : Per) (ops0 ops : List Op) :
+    ∃ evs, (run (run (init p) ops0) ops).log = (run (init p) ops0).log ++ evs ∧
+      ∀ c it, it ∈ ((run (init p) ops0).nodes c).items →
+        Valid (run (init p) ops0) (run (run (init p) ops0) ops) evs it c (HistRemoves (run (init p) ops0) ops c it) :=
+  run_valid (reach_ok p ops0).1 ops
+
+/-- the same for one operation and for one micro step are `stable_sharp` / `stable_step`; this is the one-operation form with the
+    value clause -/
+theorem pointer_valid_step (p : Per) (ops0 : List Op) (op : Op) :
+    ∃ evs, (step (run (init p) ops0) op).log = (run (init p) ops0).log ++ evs ∧
+      ∀ c it, it ∈ ((run (init p) ops0).nodes c).items →
+        Valid (run (init p) ops0) (step (run (init p) ops0) op) evs it c (Op.removes (run (init p) ops0) op c it) :=
+  step_valid (reach_ok p ops0).1 op
+
+/-- what does NOT end the life of a pointer: no history made of insertions (single elements, own elements, whole containers, the
+    container itself) and swaps removes any element of any container - in any state. -/
+theorem insertions_and_swaps_never_invalidate (st : State) (ops : List Op)
+    (hp : ∀ op, op ∈ ops → op.isInsertion = true ∨ ∃ c0 w, op = .swap c0 w) (c : Var) (it : Item) :
+    ¬ HistRemoves st ops c it :=
+  hist_insertions_swaps_remove_nothing ops st c it hp
+
+/-- where the pointer comes from: in a reachable state an insertion step (`append` / `prepend` / `insert`, in-place construction of the
+    pool containers included) either leaves the item list as it is (existing key: overwrite of that item's value, or nothing) or links
+    exactly ONE new item, in a slot no element of the container occupied, keeping all others - the element whose address the call returns. -/
+theorem insert_links_one_item (p : Per) (ops : List Op) (c : Var) (pos : Option Nat) (k v : Option SrcRef) (st' : State)
+    (he : exec (run (init p) ops) (.put c pos k v) = some st') :
+    (st'.nodes c).items = ((run (init p) ops).nodes c).items ∨
+    ∃ it q, (st'.nodes c).items = insertAt ((run (init p) ops).nodes c).items q it ∧ it ∉ ((run (init p) ops).nodes c).items :=
+  put_links_item (reach_ok p ops).1 c pos k v he
+
+/-- non-vacuity of `pointer_valid_until_removed`: the PoolList element appended first in `stableOps` lives in slot (block, 3); the
+    history `clientOps` (an append, a swap to the other variable, an append there, a re-entrant removal of two OTHER elements, a swap
+    back) leaves it an item of variable 0 in that slot; appending `.pRemove 0 0` removes exactly it -/
+def clientOps : List Op := [.pAppend 0 10, .pAppend 0 11, .swap ⟨.P, 0⟩ 1, .pAppend 1 12, .pRemoveChain 1 1 2, .swap ⟨.P, 1⟩ 0]
+example : ((run (init per4) stableOps).nodes ⟨.P, 0⟩).items.head? = ((run (run (init per4) stableOps) clientOps).nodes ⟨.P, 0⟩).items.head? ∧
+    ((run (init per4) stableOps).nodes ⟨.P, 0⟩).items.length = 1 ∧
+    ((run (run (init per4) stableOps) clientOps).nodes ⟨.P, 0⟩).items.length = 2 ∧
+    ((run (run (init per4) stableOps) (clientOps ++ [.pRemove 0 0])).nodes ⟨.P, 0⟩).items.length = 1 := by decide +kernel
 
 end Nstd.Life
